@@ -14,7 +14,7 @@ pub static DEF: CheckDef = CheckDef {
     id: "C19",
     families,
     run_case,
-    rule: "the families of C01-C07, and additionally of C09, C13, C14, C15, C16, C17 (quick sizes; thorough: a quarter of their thorough \
+    rule: "the families of C01-C07, and additionally of C09, C13, C14, C15, C16, C17 (quick sizes; thorough: a tenth of their thorough \
            sizes) executed by the f32 build under the f32 comparison rule, plus an offline diff of per-case metadata \
            logs between the f64 and the f32 build. Non-trivial / distinct: as defined by the underlying check for \
            each family.",
@@ -64,7 +64,7 @@ fn families(t: Tier) -> Vec<(&'static str, u64)> {
         for (fam, count) in (def.families)(t) {
             let c = match t {
                 Tier::Quick => count,
-                Tier::Thorough => (count / 4).max(1),
+                Tier::Thorough => (count / 10).max(1),
             };
             v.push((static_name(id, fam), c));
         }
